@@ -407,7 +407,12 @@ def check_function(fx: FlagCtx, f: FuncInfo, seen: set, label: str, model_tags: 
             continue
         helper_flags = [g for g in callees if in_pass(g) and _returns_flag(g)]
         ok, how = False, ""
-        if helper_flags and not direct and len(helper_flags) == len(callees):
+        # a nested helper that declares this function's flag `nonlocal` accounts for its own writes (it is checked below, with
+        # the same flags): its call needs no flag statement of its own here
+        closures = [g for g in callees if g.parent is not None and (g.parent is f or g.parent is f.parent) and (_nonlocal_flags(g) & (flags | _nonlocal_flags(f)))]
+        if closures and not direct and len(closures) == len(callees):
+            ok, how = True, "the nested helper sets the enclosing function's flag itself (its body is checked with the same flags)"
+        if not ok and helper_flags and not direct and len(helper_flags) == len(callees):
             ok, how = _folded(cfg, node, st, flags, f)
         if not ok:
             before = cfg.all_paths_through(cfg.entry, tnodes, {nid}, exc=False) if tnodes else False
